@@ -79,7 +79,11 @@ def _run_ckd(node, i, I, via="ckd"):
         except StopIteration:
             r, err = None, RuntimeError("listing did not contain the requested child")
         except Exception as e:  # noqa
-            r, err = None, e
+            from ..core import raised_by_harness
+            if raised_by_harness(e):
+                r, err = {"harness_side_error_after_the_call_returned": repr(e)}, None      # (the library did not refuse)
+            else:
+                r, err = None, e
     used = sum(1 for c in stub.calls if c[3])
     return r, err, used
 
